@@ -78,7 +78,7 @@ impl<T: Copy> Producer<'_, T> {
         // After writing the content of the write_cell, the content needs to be synced with the
         // reader.
         /////////////////////////
-        self.atomic.mgmt.write_cell.fetch_add(1, Ordering::Release);
+        self.atomic.mgmt.write_cell.fetch_add(1, Ordering::AcqRel);
     }
 }
 
@@ -181,7 +181,7 @@ impl UnrestrictedAtomicMgmt {
         // After writing the content of the write_cell, the content needs to be synced with the
         // reader.
         /////////////////////////
-        self.write_cell.fetch_add(1, Ordering::Release);
+        self.write_cell.fetch_add(1, Ordering::AcqRel);
     }
 
     /// # Safety
@@ -341,7 +341,7 @@ impl<T: Copy> UnrestrictedAtomic<T> {
         // the completion of the store operation and would result in a data race when
         // `data` would be written after the `write_cell` operation
         /////////////////////////
-        self.mgmt.write_cell.fetch_add(1, Ordering::Release);
+        self.mgmt.write_cell.fetch_add(1, Ordering::AcqRel);
     }
 
     /// Loads the underlying value and returns a copy of it.
